@@ -31,6 +31,11 @@ type c10tok struct {
 	Right int    `json:"right"` // -1: no RightTrim, else mode
 	Trim  bool   `json:"trim"`  // text.Trim (both sides, spaces and newlines)
 	Inner string `json:"nesting"`
+	// Alt: when set, the token parser is Choice/Any of two trimmed operators - this token's text and Alt - with the same
+	// modes and nesting: the trimming happens INSIDE the alternatives (the input always holds Text at this place)
+	Alt      string `json:"alternative_text,omitempty"`
+	AltFirst bool   `json:"alternative_first,omitempty"`
+	AltAny   bool   `json:"alternatives_with_any,omitempty"`
 }
 
 var c10kinds = []struct{ kind, text string }{
@@ -81,7 +86,7 @@ func c10lexeme(in string, x int, t c10tok) int {
 var c10parsers = map[string]parsley.Parser{}
 
 func c10parser(t c10tok) parsley.Parser {
-	key := fmt.Sprint(t.Kind, "|", t.Text, "|", t.Left, t.Right, t.Trim, t.Inner)
+	key := fmt.Sprint(t.Kind, "|", t.Text, "|", t.Left, t.Right, t.Trim, t.Inner, "|", t.Alt, t.AltFirst, t.AltAny)
 	if p, ok := c10parsers[key]; ok {
 		return p
 	}
@@ -91,6 +96,18 @@ func c10parser(t c10tok) parsley.Parser {
 }
 
 func c10build(t c10tok) parsley.Parser {
+	if t.Alt != "" {
+		one, other := t, t
+		one.Alt, other.Alt, other.Text = "", "", t.Alt
+		ps := []parsley.Parser{c10parser(one), c10parser(other)}
+		if t.AltFirst {
+			ps[0], ps[1] = ps[1], ps[0]
+		}
+		if t.AltAny {
+			return combinator.Any(ps...)
+		}
+		return combinator.Choice(ps...)
+	}
 	var p parsley.Parser
 	switch t.Kind {
 	case "op":
@@ -235,6 +252,15 @@ func c10exec(j run.Job, a *run.Acc) {
 			if r.Intn(8) == 0 {
 				t.Trim = true
 			}
+			if t.Kind == "op" && r.Intn(5) == 0 {
+				// neither text is a prefix of the other, so the alternatives are never ambiguous
+				t.Alt = map[string]string{"a": "bb", "bb": "==", "==": "c", "c": "a"}[t.Text]
+				t.AltFirst, t.AltAny = r.Intn(2) == 0, r.Intn(2) == 0
+				// left trimming only: a RightTrim around the alternatives would move the not-found error of the alternative
+				// that does not match over the whitespace (RightTrim's error rule), and then that error, not the matching
+				// alternative's whitespace error, is the furthest one - a composition the statement says nothing about
+				t.Right, t.Trim = -1, false
+			}
 			if scale {
 				// permissive modes: a long input has to be accepted up to its end for the far offsets to be reached at all
 				t.Left, t.Right, t.Trim = 2, []int{-1, 2, 2}[r.Intn(3)], false
@@ -245,6 +271,9 @@ func c10exec(j run.Job, a *run.Acc) {
 			if j.Family == "permitted" {
 				// bias towards layouts that the modes accept: the transparency half of the property
 				t.Left, t.Right = []int{-1, 2, 2, 1}[r.Intn(4)], []int{-1, 2, 2, 1}[r.Intn(4)]
+			}
+			if t.Alt != "" {
+				t.Right, t.Trim = -1, false // (after the family-specific mode choices above)
 			}
 			toks = append(toks, t)
 			raw.WriteString(gap())
@@ -270,7 +299,7 @@ func c10exec(j run.Job, a *run.Acc) {
 					for _, t := range toks {
 						ps = append(ps, c10parser(t))
 					}
-					f := text.NewFile("f", []byte(raw.String()))
+					f := gram.NewFileFrom("f", []byte(raw.String()))
 					parsley.Parse(parsley.NewContext(parsley.NewFileSet(f), text.NewReader(f)), combinator.Sentence(combinator.SeqOf(ps...)))
 				}()
 			}
@@ -282,7 +311,7 @@ func c10exec(j run.Job, a *run.Acc) {
 		for i, n := range pre {
 			fs.AddFile(gram.Filler(fmt.Sprintf("p%d", i), n, 0))
 		}
-		f := text.NewFile("f", []byte(raw.String()))
+		f := gram.NewFileFrom("f", []byte(raw.String()))
 		fname := "f"
 		if viaReadFile {
 			// the input is a file on disk, loaded with text.ReadFile (the file's name is its path)
@@ -609,7 +638,7 @@ func init() {
 		},
 		Exec: c10exec,
 		Finish: func(tier string, a *run.Acc, cov map[string]any) string {
-			cov["rule"] = "case = 1-4 tokens (Op, Word, Integer, String terminals), each independently wrapped in LeftTrim(mode)|none and RightTrim(mode)|none in both nesting orders, or text.Trim, " +
+			cov["rule"] = "case = 1-4 tokens (Op, Word, Integer, String terminals; a fifth of the operators are Choice/Any of two operators trimmed INSIDE the alternatives), each independently wrapped in LeftTrim(mode)|none and RightTrim(mode)|none in both nesting orders, or text.Trim, " +
 				"with a whitespace string (space, tab, LF, FF, CRLF mixtures, or empty) in every gap incl. before the first and after the last token; root Sentence(SeqOf(...)); " +
 				"also Many/SepBy over a trimmed token; file placed after 0-2 other files, one case in 12 beyond a file of 64 KiB ... 2^40 bytes; family scale: 300-3000 tokens, or whitespace runs of 100-40000 bytes (CRLF-heavy) in the gaps, half of these inputs written to disk and loaded with text.ReadFile. Oracle: byte-level simulation: each trimming parser sees the maximal run where it is invoked; " +
 				"the first failing check in parse order gives the exact expected text 'failed to parse the input: <mode message> at f:L:C' (start of run / first line break / end of run); " +
